@@ -7,7 +7,7 @@ ASSUMPTIONS = CR_ASSUMPTIONS = [
     "the generator is driven through a scripted subclass of cryptorandom.SHA256 (harness/tape.py): requests are answered lazily and logged; the same answers are replayed for the keep_dist twin",
     "data are small integers times the product of the group sizes times a power of two (optionally plus a large offset), so every named float statistic is exact in binary64",
     "SHA-256 / Mersenne-Twister output is assumed uniform (real-seed runs check reproducibility and the p-value assembly only)"]
-ALLOWED = ['shift-guard', 'inverse-guard', 'table', 'observed-not-data', 'inadmissible', 'observed-stat', 'p-not-from-dist', 'input-modified']
+ALLOWED = ['shift-guard', 'inverse-guard', 'table', 'observed-not-data', 'inadmissible', 'observed-stat', 'p-not-from-dist', 'input-modified', 'keepdist-differs', 'wrong-rearrangement']
 FOCUS = 'C16'
 
 
@@ -16,7 +16,12 @@ def cases(tier, rng, dist):
 
 
 def oracle(c, o):
-    r = CR.oracle(c, o)
+    from .. import common
+    common.ALLOW[0] = list(ALLOWED)      # violations of other classes do not end the oracle early (common.emit)
+    try:
+        r = CR.oracle(c, o)
+    finally:
+        common.ALLOW[0] = None
     if r is None:
         return None
     suffix = r["cls"].split(":", 1)[1] if ":" in r["cls"] else r["cls"]
